@@ -16,13 +16,18 @@ THEOREM_FILES = ['NumqiProps/C06.lean', 'NumqiProps/C06Sdp.lean', 'NumqiProps/C1
 LEVEL = 'proof'
 RULE = ('random density matrices and random Hermitian (non-positive) directions in dims (2,2),(2,3),(3,3),(2,4), single / batched / '
         'explicit dm_norm code paths; Gaussian-integer Hermitian matrices for the exact index-map tie; LP rows for integer kets; real LP '
-        'solutions for the mixture identity. An op is non-trivial when its input is not a multiple of the identity; distinct = distinct op lines.')
+        'solutions for the mixture identity; Gaussian-integer coefficients / tables / blocks for the Dicke reduction and the SDP index layer, '
+        'dyadic data for the bisection and the affine ray expression. An op is non-trivial when its input is not a multiple of the identity; distinct = distinct op lines.')
 TRUSTED = ['Lean 4.33 kernel', 'axioms: propext, Classical.choice, Quot.sound', 'Lean compiler for the driver executable (IEEE binary64 Float ops)',
            'harness/c06.py canonicalisation (bit patterns, exact rationals)',
            'modelled, not verified: numqi/entangle/_misc.py (hf_interpolate_dm, get_density_matrix_boundary), ppt.py (get_ppt_boundary), '
-           'cha.py (_cvxpy_solve data), gellmann.py (dm_to_gellmann_norm)',
+           'cha.py (_cvxpy_solve data), gellmann.py (dm_to_gellmann_norm, get_density_matrix_distance2), dicke.py (index table, '
+           'partial_trace_ABk_to_AB), pureb.py (forward), entangle/symext.py (realignment, affine ray expression, 0213 gather, cvx_rdm / trace '
+           'constraint of _ABk_symmetric_extension_setup), _ree_bisection_solve',
+           'tolerances of the round-6 ties: exact everywhere except extray for dA*dB not a power of two (4e-16 absolute: fl(1/N) and one '
+           'more rounding) and irreprdm (model exact, cvxpy evaluates in doubles: 1e-11 relative)',
            'contracts (hypotheses of the theorems, probed only): np.linalg.eigvalsh, the LP/SDP solvers behind cvxpy, '
-           'the irrep-block encoding of the extension constraints, PureBosonicExt reduction (C17), optimiser convergence']
+           'the converse of the irrep-block encoding (k-extendible => feasible) and the non-bosonic irrep blocks for dimB >= 3, optimiser convergence']
 
 DIMS = [(2, 2), (2, 3), (3, 3), (2, 4)]
 # residual allowed for quantities that come out of the LP solver (CLARABEL via cvxpy, short iteration counts): observed on the unchanged
